@@ -948,6 +948,11 @@ func (s *scen) exec(op int, probe bool) result {
 				retryCall = c
 			}
 		}
+		if len(m.viols) > 0 {
+			// an oracle inside TxRelayPayment fired (window / retry budget): these do not depend on the order in
+			// which this claim processed its proofs
+			return result{accepted: true, obs: "claim-violation", viol: m.viols}
+		}
 		both := newCall != nil && retryCall != nil
 		if (retryCall != nil) != retryAlive {
 			panic("c29 harness: wrong prediction of the retry claim")
@@ -980,7 +985,6 @@ func (s *scen) exec(op int, probe bool) result {
 				}
 			}
 		}
-		res.viol = append(res.viol, m.viols...)
 		// best proof submitted / claimed in window
 		submittedNew := map[int]bool{}
 		if newCall != nil {
@@ -1074,11 +1078,14 @@ func (s *scen) Apply(op int) bfs.Step {
 	}
 	s.materialize()
 	h0 := s.hashNow()
+	s.dirty = true // stays set if exec panics: the real state is then rebuilt before its next use
 	r := s.exec(op, expansion)
 	for r.orderMiss {
 		s.rebuild()
+		s.dirty = true
 		r = s.exec(op, expansion)
 	}
+	s.dirty = len(r.viol) > 0 // a violating successor is never expanded; it is rebuilt should it be needed again
 	if !r.accepted {
 		if r.mutated {
 			s.dirty = true
